@@ -26,7 +26,7 @@ def run(tier, seed, replay=None):
         standard_corr(R, 'c07', 'krylov-search', tier='thorough')
     if r:
         R.cov['distinct_nontrivial'] = distinct_count(os.path.join(r['out'], 'requests.txt'))
-        R.cov['rule'] = ('direct histories init / factorize_from(1,m1) / factorize_from(m1,m) / up to 3 x [compress with 1..m-1 real shifts (UpperHessenbergQR, DoubleShiftQR, TridiagQR) + compress_V + factorize_from(k,m)] on the real Arnoldi and Lanczos classes (identity and dense SPD B), n 2..12, m 2..8, generators random / small integers with zeros / block diagonal with start vector in the small invariant block / rank-deficient scaled 1e-8..1e8 / eigenvector start / graded; compress_V on explicit states with arbitrary dense Q; '
+        R.cov['rule'] = ('direct histories init / factorize_from(1,m1) / factorize_from(m1,m) / up to 3 x [compress with 1..m-1 real shifts (UpperHessenbergQR, DoubleShiftQR, TridiagQR) + compress_V + factorize_from(k,m)] on the real Arnoldi and Lanczos classes (identity and dense SPD B), n 2..12, m 2..8, generators random / small integers with zeros / block diagonal with start vector in the small invariant block / rank-deficient scaled 1e-8..1e8 / eigenvector start / graded; plus a fixed share (nd/4 per class) of STRUCTURED BREAKDOWN histories (exact eigenvector start, eigenvector up to rounding, sum of two eigenvectors, exact integer invariant block of size 2..3; Lanczos also with B = blockdiag(4^k, dense SPD) resp. dense SPD) that take the init f := 0 guard, beta < near_0 -> expand_basis, the re-orthogonalisation f := 0 shortcut and continue with further steps after the restart (branch tags counted as corrtag_* in harness_counters); a correspondence line is written for every finite history, also when the oracle fails on it; compress_V on explicit states with arbitrary dense Q; '
                          'full runs of SymEigsSolver, GenEigsSolver, SymGEigsSolver<Cholesky>, SymGEigsSolver<RegularInverse> (n 4..40) observed at arnoldi.init / *.factorize / arnoldi.expand / arnoldi.compress; predicate constants: relation, V\'Bf <= 2000 k u ||A||_F, ||V\'BV-I||_F <= 2000 k u (x cond_F(B)), |beta-||f||_B| <= 2000 u ||f||; distinct request lines counted')
         R.cov['exhaustive'] = False
     return R.finish()
